@@ -215,8 +215,9 @@ pub fn exec_op(ctx: &StoreCtx, line: &str) -> String {
 }
 
 /// hierarchy-shaped key universe: no key is a directory prefix of another
-const KEYS: [&str; 12] = ["a/b", "a/c", "a/d/e", "a/d/f", "a/g/h/i", "j", "k/l", "k/m/n", "zarr.json", "a/zarr.json", "c/0/1", "c/0/2"];
-const PREFIXES: [&str; 9] = ["~", "a/", "a/d/", "a/g/", "a/g/h/", "k/", "k/m/", "c/", "x/"];
+// sibling names that sort below and above `/` (`.`, `-` < `/` < digits, letters) are included on purpose
+const KEYS: [&str; 17] = ["a/b", "a/c", "a/d/e", "a/d/f", "a/g/h/i", "j", "k/l", "k/m/n", "zarr.json", "a/zarr.json", "c/0/1", "c/0/2", "a/d.v2/e", "a/d-1/f", "a.z", "a-b/c", "a/d0/e"];
+const PREFIXES: [&str; 12] = ["~", "a/", "a/d/", "a/g/", "a/g/h/", "k/", "k/m/", "c/", "x/", "a/d.v2/", "a-b/", "a/d-1/"];
 
 fn gen_range(rng: &mut Rng, len: u64, oob_ok: bool) -> String {
     let len1 = len + if oob_ok && rng.chance(1, 5) { rng.range(1, 4) } else { 0 };
